@@ -15,6 +15,15 @@ CHECKS = {
     "C14": ("exploration", "runtime monitoring: size/flag/accounting invariants checked on every emitted datagram with an independent parser",
             "Every datagram produced for generated messages (0..300 entries/section, oversize entries, limit sweep) is checked for size limits, header counts vs content, TC/id rules and exactly-once accounting.",
             "Trusts vlib/wire.py for counting entries.", "2/C14"),
+    "C02": ("exploration", "runtime monitoring: totality/step-budget/faithfulness monitors on the real decoder (sys.setprofile call+depth metering, independent strict parser as oracle)",
+            "Random, mutated, grammar-generated adversarial and bounded-exhaustive byte strings are decoded by the real DNSIncoming under a call/depth meter; any exception, budget overrun, over-long name or disagreement with the independent strict parser is a violation.",
+            "Work is measured in Python calls/stack depth (budget constants in vlib/checks/c02.py); trusts vlib/wire.py as the strict parser.", "2/C02"),
+    "C19": ("exploration", "runtime monitoring: differential oracle (independent RFC 6763 name recogniser and TXT parser) over grammar-generated, mutated and bounded-exhaustive inputs",
+            "service_type_name is compared with an independent recogniser of the documented rules on valid names, every rule violated singly/in pairs, bounded-exhaustive stems and random strings in both strict modes; TXT dictionaries are encoded by ServiceInfo and decoded by the library, an independent parser and via the wire codec.",
+            "Names with an empty label inside the instance part are treated as unspecified (exception type still checked).", "2/C19"),
+    "C20": ("exploration", "runtime monitoring: exhaustive pairwise identity oracle over a bounded vocabulary (canonical-key model vs ==, hash, set/DNSRRSet/DNSCache behaviour)",
+            "All ordered pairs of ~3000 record/question objects (thorough) are compared against an independent canonical key: equality, hash congruence, symmetry and membership behaviour in set, DNSRRSet and DNSCache.",
+            "Vocabulary is bounded; identity code has no size-dependent branches.", "2/C20"),
 }
 
 NOT_YET = {}
